@@ -108,7 +108,9 @@ def evalE (s : St) : Expr → Option (Except String Val)
   | .constant .false_ => some (.ok (.bool false))
   | .constant (.int n) => some (.ok (.int n))
   | .constant (.str _ cps) => some (.ok (.str (String.ofList (cps.map Char.ofNat))))
-  | .name x _ => (match s.lookup x with | some v => some (.ok v) | none => some (.error "NameError"))
+  | .name x _ =>
+    if x == "__debug__" then none       -- only the documented `if __debug__` tests are given a meaning (see `condE`)
+    else (match s.lookup x with | some v => some (.ok v) | none => some (.error "NameError"))
   | .unaryOp .not_ e => (match evalE s e with
       | some (.ok v) => some (.ok (.bool (!v.truthy)))
       | r => r)
@@ -149,6 +151,12 @@ def evalArgs (s : St) : List Expr → Option (Except String (List Val))
 
 /-- static function table: name ↦ (parameter names, body) for the module's top-level plain `def`s -/
 abbrev FTab := List (String × List String × List Stmt)
+
+/-- what a run depends on besides the state: the function table and whether the interpreter runs with `-O`
+    (`__debug__` is False and `assert` statements are not executed) -/
+structure RunEnv where
+  ft : FTab
+  opt : Bool := false
 
 def argName : Arg → String
   | .mk n _ => n
@@ -310,15 +318,31 @@ def forRange : Expr → Expr → Option (String × Expr)
   | .name x _, .call (.name f _) [e] [] => if f == "range" then some (x, e) else none
   | _, _ => none
 
+/-- the documented spellings of "are we running without -O" -/
+def isDebugTest : Expr → Bool
+  | .name "__debug__" _ => true
+  | .compare (.name "__debug__" _) [.is_] [.constant .true_] => true
+  | .compare (.name "__debug__" _) [.isNot] [.constant .false_] => true
+  | .compare (.name "__debug__" _) [.eq] [.constant .true_] => true
+  | _ => false
+
+/-- the value of an `if` test: the `__debug__` tests are True, and False under `-O` -/
+def condE (opt : Bool) (s : St) (c : Expr) : Option (Except String Val) :=
+  if isDebugTest c then some (.ok (.bool (!opt))) else evalE s c
+
+def isAssertStmt : Stmt → Bool
+  | .assert_ .. => true
+  | _ => false
+
 /-- a function body that falls off its end returns `None` -/
 def asCall : Res Flow → Res Flow
   | .ok (.normal s) => .ok (.returned .none s)
   | r => r
 
 mutual
-def exec1 (ft : FTab) (fuel : Nat) (s : St) : Stmt → Res Flow
+def exec1 (ft : RunEnv) (fuel : Nat) (s : St) : Stmt → Res Flow
   | .if_ c body orelse =>
-    (match evalE s c with
+    (match condE ft.opt s c with
      | some (.ok v) => if v.truthy then execL ft fuel s body else execL ft fuel s orelse
      | some (.error x) => .raised x s
      | none => .stuck)
@@ -351,12 +375,13 @@ def exec1 (ft : FTab) (fuel : Nat) (s : St) : Stmt → Res Flow
       (afterBody (execL ft fuel s body) (fun s1 => execL ft fuel s1 orelse) (fun x s1 => execH ft fuel s1 x hs))
       (fun s1 => execL ft fuel s1 fin)
   | st =>
-    match callOf st with
-    | some (f, args, target) => callFn ft fuel s f args target
-    | none => simpleExec s st
+    if ft.opt && isAssertStmt st then .ok (.normal s)       -- `python -O` does not execute assert statements
+    else match callOf st with
+      | some (f, args, target) => callFn ft fuel s f args target
+      | none => simpleExec s st
 termination_by st => (fuel, 1 + sizeOf st)
 /-- iterations `i, i+1, …, n-1` of `for x in range(n)`; each iteration costs one unit of fuel -/
-def execFor (ft : FTab) (fuel : Nat) (s : St) (x : String) (i n : Int) (body orelse : List Stmt) : Res Flow :=
+def execFor (ft : RunEnv) (fuel : Nat) (s : St) (x : String) (i n : Int) (body orelse : List Stmt) : Res Flow :=
   if i < n then
     match fuel with
     | 0 => .timeout
@@ -369,7 +394,7 @@ def execFor (ft : FTab) (fuel : Nat) (s : St) (x : String) (i n : Int) (body ore
   else execL ft fuel s orelse
 termination_by (fuel, 2 + sizeOf body + sizeOf orelse)
 /-- the first handler that catches `x` runs; no handler: the exception propagates -/
-def execH (ft : FTab) (fuel : Nat) (s : St) (x : String) : List Handler → Res Flow
+def execH (ft : RunEnv) (fuel : Nat) (s : St) (x : String) : List Handler → Res Flow
   | [] => .raised x s
   | .mk ty nm hbody :: rest =>
     match catches (excKind ty) nm x with
@@ -377,7 +402,7 @@ def execH (ft : FTab) (fuel : Nat) (s : St) (x : String) : List Handler → Res 
     | some false => execH ft fuel s x rest
     | none => .stuck
 termination_by hs => (fuel, 1 + sizeOf hs)
-def execL (ft : FTab) (fuel : Nat) (s : St) : List Stmt → Res Flow
+def execL (ft : RunEnv) (fuel : Nat) (s : St) : List Stmt → Res Flow
   | [] => .ok (.normal s)
   | st :: rest =>
     match exec1 ft fuel s st with
@@ -385,10 +410,10 @@ def execL (ft : FTab) (fuel : Nat) (s : St) : List Stmt → Res Flow
     | r => r
 termination_by l => (fuel, 1 + sizeOf l)
 /-- call a table function with evaluated arguments; `target` receives the result -/
-def callFn (ft : FTab) (fuel : Nat) (s : St) (f : String) (args : List Expr) (target : Option String) : Res Flow :=
+def callFn (ft : RunEnv) (fuel : Nat) (s : St) (f : String) (args : List Expr) (target : Option String) : Res Flow :=
   match evalArgs s args with
   | some (.ok vs) =>
-    (match ft.lookup f with
+    (match ft.ft.lookup f with
      | some (params, body) =>
        if params.length != vs.length then .raised "TypeError" s
        else match fuel with
@@ -443,6 +468,9 @@ def observe (r : Res Flow) (fallback : St) : Obs :=
 
 def St.init : St := ⟨[], none, [], []⟩
 
-def run (fuel : Nat) (m : Module) : Obs := observe (execL (collect m.body) fuel St.init m.body) St.init
+def run (fuel : Nat) (m : Module) : Obs := observe (execL ⟨collect m.body, false⟩ fuel St.init m.body) St.init
+
+/-- the observable under `python -O` -/
+def runO (fuel : Nat) (m : Module) : Obs := observe (execL ⟨collect m.body, true⟩ fuel St.init m.body) St.init
 
 end PMV.PyCore
